@@ -263,7 +263,20 @@ func genC10(r *rngT, n int, tier string) {
 			streams = append(streams, st)
 		}
 		sc := evScenario{dn: dn, key: key, streams: streams, mode: mode, writers: r.Intn(4), seed: r.Int63(), slowCons: r.bool()}
-		pre, post, note := runEvScenario(sc)
+		var pre, post [][]string
+		var note string
+		if mode == "drain" && i%6 == 0 {
+			// the same over real sockets: one UDP or TCP server endpoint, one peer per stream
+			udp := i%12 == 0
+			pre, post, note = runEvNet(sc, udp)
+			if udp {
+				stat("c10-drain-udp-server")
+			} else {
+				stat("c10-drain-tcp-server")
+			}
+		} else {
+			pre, post, note = runEvScenario(sc)
+		}
 		stat("c10-" + mode)
 		if note != "" {
 			n = 0 // a stalled node: one failing scenario is enough, do not wait for the timeouts of the others
